@@ -412,6 +412,8 @@ class Fn:
                 p.append(('v', e[2]))
             elif e[0] == 'index':
                 p.append(('i', e[2]))
+            elif e[0] == 'cidx' and not e[3]:
+                p.append(('i', ('const', e[2], None, 'usize')))
             else:
                 p.append(('i', ('?',)))
             e = e[1]
@@ -1006,6 +1008,8 @@ class Facts:
         self.d['fns'] = il.run()
         # helpers whose every call site was inlined: analysed only in the context of their callers
         self.inlined_helpers = {h: sorted(cs) for h, cs in il.inlined_into.items() if not il.kept_calls.get(h)}
+        for cid in il.closures_fully_inlined:
+            self.inlined_helpers[cid] = sorted(il.closure_inlined[cid])
         for f in self.d['fns']:
             if f['id'] in self.inlined_helpers:
                 continue
@@ -1313,7 +1317,23 @@ def eval_region(fn, entry, env, max_steps=2000, stop_at=None, menv=None, assume_
     menv = dict(menv or {})
     menv_watch = set(menv) if track_mem else None
 
+    def canon(p):
+        # resolve accesses through pointer locals that are known to point to a place (reborrows / copies of a
+        # reference parameter, e.g. `self` of an inlined method): (*_n).f  ->  (*_1).f
+        for _ in range(4):
+            l, pr = p['l'], p['p']
+            if pr and pr[0] == 'deref':
+                if l in prefs:
+                    p = {'l': prefs[l]['l'], 'p': list(prefs[l]['p']) + list(pr[1:])}
+                    continue
+                if l in refs and len(pr) > 1:
+                    p = {'l': refs[l], 'p': list(pr[1:])}
+                    continue
+            break
+        return p
+
     def rd_place(p):
+        p = canon(p)
         l, pr = p['l'], p['p']
         if pr and read_hook is not None:
             hv = read_hook(p, env)
@@ -1364,6 +1384,8 @@ def eval_region(fn, entry, env, max_steps=2000, stop_at=None, menv=None, assume_
             lhs, rv = s['lhs'], s['rv']
             k = rv['k']
             if lhs['p']:
+                lhs = canon(lhs)
+            if lhs['p']:
                 # store into memory: forget (or, with track_mem, record) what we know about it
                 key_ = json.dumps(lhs, sort_keys=True)
                 if track_mem:
@@ -1394,16 +1416,35 @@ def eval_region(fn, entry, env, max_steps=2000, stop_at=None, menv=None, assume_
             l = lhs['l']
             try:
                 if k == 'use':
-                    env[l] = rd(rv['a'])
+                    a_ = rv['a']
+                    if a_['k'] in ('copy', 'move') and not a_['place']['p'] and fn.locals[l]['ty'].startswith('&'):
+                        # a copied pointer keeps pointing to the same place
+                        m_ = a_['place']['l']
+                        refs.pop(l, None)
+                        prefs.pop(l, None)
+                        if m_ in refs:
+                            refs[l] = refs[m_]
+                        elif m_ in prefs:
+                            prefs[l] = prefs[m_]
+                        elif 1 <= m_ <= fn.argc:
+                            prefs[l] = {'l': m_, 'p': ['deref']}
+                        env.pop(l, None)
+                        try:
+                            env[l] = rd(a_)
+                        except KeyError:
+                            pass
+                    else:
+                        env[l] = rd(rv['a'])
                 elif k == 'ref':
-                    pl = rv['place']
+                    pl = canon(rv['place'])
+                    prefs.pop(l, None)
+                    refs.pop(l, None)
                     if not pl['p']:
                         refs[l] = pl['l']
                     elif pl['p'] == ['deref'] and pl['l'] in refs:
                         refs[l] = refs[pl['l']]
                     else:
                         env.pop(l, None)
-                        refs.pop(l, None)
                         prefs[l] = pl
                 elif k == 'bin':
                     a, c = rd(rv['a']), rd(rv['b'])
@@ -1424,10 +1465,15 @@ def eval_region(fn, entry, env, max_steps=2000, stop_at=None, menv=None, assume_
                     v_ = rd_place(rv['place'])
                     if isinstance(v_, int):
                         env[l] = v_
+                    elif isinstance(v_, tuple) and len(v_) == 2 and v_[0] == '#variant':
+                        env[l] = v_[1]
                     else:
                         env.pop(l, None)
                 elif k == 'agg' and rv.get('agg') == 'adt' and not rv.get('ops') and 'vidx' in rv:
                     env[l] = rv['vidx']
+                elif k == 'agg' and rv.get('agg') == 'adt' and 'vidx' in rv:
+                    # an enum value with payload (Some(x), Ok(y)): only its variant is tracked
+                    env[l] = ('#variant', rv['vidx'])
                 else:
                     env.pop(l, None)
                     refs.pop(l, None)
